@@ -7,6 +7,7 @@
    No proofs in this file. *)
 From Coq Require Import String List NArith ZArith Bool.
 From J5V.lib Require Import Text Outcome.
+From J5V.gen Require TokensGen.
 From J5V.model Require Import BclLexer.
 Import ListNotations.
 Local Open Scope bool_scope.
@@ -170,7 +171,8 @@ Fixpoint pop_elems (pv : wstate -> wres value) (fuel2 : nat) (opener : token) (a
 
 (* maxValueDepth: popValue refuses to open an array nested deeper than this (it recurses once per
    bracket; the bound keeps the recursion, hence the goroutine stack, bounded) *)
-Definition max_value_depth : N := 10000.
+(* const maxValueDepth, as the translator reads it from parser.go *)
+Definition max_value_depth : N := TokensGen.max_value_depth.
 
 Fixpoint pop_value (fuel : nat) (depth : N) (s : wstate) : wres value :=
   match fuel with
@@ -318,7 +320,8 @@ Fixpoint skip_to_eol (fuel : nat) (s : wstate) : wres unit :=
 Definition tok_string (t : token) : list N :=
   if is_literal (ty t) then
     let b := utf8_encode (lit t) in
-    let short := if Nat.ltb 20 (length b) then firstn 17 b ++ slit "token.go:String" 0 else b in
+    let short := if N.ltb (nth 0 TokensGen.token_string_ints 0%N) (N.of_nat (length b))
+                 then firstn (N.to_nat (nth 1 TokensGen.token_string_ints 0%N)) b ++ slit "token.go:String" 0 else b in
     sprintf (slit "token.go:String" 1) [tt_text (ty t); short]
   else if is_operator (ty t) then sprintf (slit "token.go:String" 3) [tt_text (ty t)]
   else tt_text (ty t).
